@@ -117,7 +117,12 @@ def run(tier, seed):
                 passes = [("pb2", lc.QUICK_PAIRS, 2, 40, 12), ("triples", lc.TRIPLES[:3], 1, 30, 10)]
             # a new edge: put the pairs of the regressed instance in front
             extra = []
-            for r in reg[:4]:
+            seen_inst, picked = set(), []
+            for r in sorted(reg, key=lambda r: (0 if " S3/" in r["instance"] else 1)):   # distinct instances, the nested shape first
+                if r["instance"] not in seen_inst:
+                    seen_inst.add(r["instance"])
+                    picked.append(r)
+            for r in picked[:6]:
                 cls_inst = r["instance"].split()
                 shape, inst = cls_inst[1].split("/", 1)
                 name = "%s/%s" % (cls_inst[0], inst)
